@@ -136,6 +136,41 @@ def rule_accept(ctx, py):
     ctx.floor(R, 1)
 
 
+def rule_accept_geom(ctx, py):
+    """C16.ACCEPT (second clause) -- the documented rules speak of the map's length, type, range, completeness, of the groups'
+    environments and of the boundary conditions.  None of them is about volumes, surfaces or distances: a rejection guarded by a
+    comparison of computed geometric quantities (exact equality of floating-point sums, in particular) refuses maps the rules
+    accept."""
+    R = "C16.ACCEPT"
+    n = 0
+    for q in ("coarsegrain.check_index_map_validity", "coarsegrain.coarsegrain_grid", "coarsegrain.coarsegrain_system"):
+        f = py.fn(q)
+        geo = set()
+        for _ in range(4):
+            for st in ast.walk(f):
+                if isinstance(st, ast.Assign) and len(st.targets) == 1 and isinstance(st.targets[0], ast.Name):
+                    t = pyfe.src(st.value)
+                    if any(k in t for k in ("cell_vol", ".volume", ".surface", ".distance", "get_cell_vol")) or \
+                            any(pya.mentions(t, g_) for g_ in geo):
+                        geo.add(st.targets[0].id)
+        for r_ in [x for x in ast.walk(f) if isinstance(x, ast.Raise)]:
+            conds = []
+            p_ = pyfe.parent(r_)
+            while p_ is not None and p_ is not f:
+                if isinstance(p_, (ast.If, ast.While)):
+                    conds.append(pyfe.src(p_.test))
+                p_ = pyfe.parent(p_)
+            txt = " ; ".join(conds)
+            bad = any(k in txt for k in ("cell_vol", ".volume", ".surface", ".distance", "get_cell_vol")) or \
+                any(pya.mentions(txt, g_) for g_ in geo)
+            n += 1
+            ctx.check(not bad, R, r_, q, "raise under %s" % (txt[:70] or "(unconditional)"), "a documented rule (length, type, range, "
+                      "completeness, environments, boundary conditions)", "a map is rejected on a condition about volumes / "
+                      "surfaces / distances (`%s`): the documented rules contain no such condition, and a comparison of computed "
+                      "floating-point quantities fires on valid maps" % txt[:70], nontrivial=False)
+    ctx.need(n >= 6, R, "only %d raise statements found in the coarse-graining entry points" % n)
+
+
 def _loopvars(loops):
     out = set()
     for lp in loops:
@@ -601,6 +636,7 @@ def run(ctx):
     rule_m1(ctx, py)
     rule_valid_first(ctx, py)
     rule_accept(ctx, py)
+    rule_accept_geom(ctx, py)
     rule_kind(ctx, py)
     rule_clamp(ctx, py)
     rule_edge(ctx, py)
